@@ -24,8 +24,11 @@ class C14(fw.Prop):
             "UnitSum, bool_value/TRUE/FALSE, Tuple, Some/None_, Left/Right, IntVal of every width 0..6, FloatVal, "
             "StringVal, ArrayVal/ListVal/StaticArrayVal, opaque val.Extension constants of arbitrary types incl. "
             "linear ones), helper towers over arbitrary values, Function values over real DFG- and FuncDefn-rooted "
-            "bodies with loaded constants, collections of functions and of sums; an ill-typed stream (tag out of "
-            "range, wrong / missing / extra field, wrong element, width 7+, std constant name on an opaque payload, "
+            "bodies with loaded constants, over DFG roots that declare extension requirements (built with "
+            "ops.DFG(ins, None, reqs) and read back with Hugr.load_json), bare, nested in helpers / raw sums / "
+            "collections and loaded inside other function bodies, collections of functions and of sums; an ill-typed "
+            "stream (tag out of range, wrong / missing / extra field, wrong element, element / field type differing "
+            "from the held function in the requirements only, width 7+, std constant name on an opaque payload, "
             "StaticArrayVal of a linear element).  Each case is also put on a Const node and loaded twice "
             "(load(value), add_const + load(node)).  non-trivial = nesting depth >= 1 or a function / extension "
             "constant")
@@ -63,10 +66,21 @@ class C14(fw.Prop):
             ["tuple", [["func", "dfg", [], [["const", ["bool", True]]]], ["array", [["func", "dfg", [b], [["in", 0], ["in", 0]]]] * 2,
                                                                     ["func", [b], [b, b], []]]]],
             ["ext", "my_const", q, ["e.one"]],
+            # function bodies whose DFG root declares extension requirements (seeded C14-d: type_() dropped them)
+            ["func", "dfgx", [i5], [["in", 0]], ["arithmetic.int"]],
+            ["func", "load", [b], [["in", 0], ["const", ["int", 3, 4]]], ["e.two", "e.one"]],
+            ["func", "dfgx", [], [], []],
+            ["tuple", [["bool", True], ["func", "dfgx", [q], [["in", 0]], ["e.one"]]]],
+            ["array", [["func", "load", [], [["const", ["bool", True]]], ["my.ext"]]] * 2, ["func", [], [b], ["my.ext"]]],
+            ["sum", 1, ["sum", [[], [["func", [b], [b], ["e.one"]]]]], [["func", "dfgx", [b], [["in", 0]], ["e.one"]]]],
+            ["func", "dfg", [], [["const", ["func", "dfgx", [b], [["in", 0]], ["prelude"]]]]],
             # ill typed on purpose (the guard excludes them; model and implementation must still agree)
             ["sum", 2, ["sum", [[b], []]], []], ["sum", 0, ["sum", [[b], []]], [["int", 1, 5]]], ["unitsum", 2, 2],
             ["array", [["bool", True]], q], ["int", 1, 7], ["ext", "ConstInt", i5, []],
             ["sarray", [], q, "lin"],
+            # the declared element / field type forgets (or invents) the requirements of the function it holds
+            ["array", [["func", "dfgx", [], [], ["e.one"]]], ["func", [], [], []]],
+            ["sum", 0, ["sum", [[["func", [], [], ["e.one"]]]]], [["func", "dfg", [], []]]],
         ]]
 
     def generate(self, rng, tier, ctx):
@@ -91,6 +105,22 @@ class C14(fw.Prop):
                 n += 1
         for _ in range(15 * k):
             cases.append({"kind": "val", "val": ["sarray", [], tv.rand_ty(rng, 2, False), "x"], "broken": True})
+        # function values whose body declares extension requirements ("has the signature of its body" includes
+        # them): DFG roots built with requirements and bodies read back from JSON, bare and nested
+        # (appended last: the streams above are unchanged)
+        for _ in range(110 * k):
+            cases.append({"kind": "val", "val": tv.rand_val_reqs(rng, rng.choice([0, 0, 1, 1, 2, 3]))})
+        n = 0
+        while n < 20 * k:
+            # a collection / raw sum whose declared type disagrees with the held function in the requirements only
+            f = tv.rand_func_reqs(rng, 1)
+            t = tv.val_type_desc(f)
+            if not t[3]:
+                continue
+            t2 = t[:3] + [t[3][1:] if rng.random() < 0.6 else t[3] + ["other.ext"]]
+            cases.append({"kind": "val", "broken": True, "val": rng.choice([
+                ["array", [f], t2], ["list", [f, f], t2], ["sum", 0, ["sum", [[t2]]], [f]]])})
+            n += 1
         return cases
 
     # ------------------------------------------------------------------ implementation
@@ -186,16 +216,26 @@ class C14(fw.Prop):
             todo += tv.child_vals(x)
         for _ in range(800):
             out.append({"kind": "val", "val": tv.rand_val(rng, rng.choice([1, 2, 3]))})
+        for _ in range(100):
+            out.append({"kind": "val", "val": tv.rand_val_reqs(rng, rng.choice([0, 1, 2]))})
         return out
 
     def distribution(self, cases, observations):
-        d = {"depth": {}, "constructors": {}, "broken": 0, "not_built": 0, "int_widths": {}}
+        d = {"depth": {}, "constructors": {}, "broken": 0, "not_built": 0, "int_widths": {},
+             "func_roots": {}, "funcs_declaring_reqs": 0}
         for c, o in zip(cases, observations):
             dp = str(tv.vdepth(c["val"]))
             d["depth"][dp] = d["depth"].get(dp, 0) + 1
             for kk, n in tv.vkinds(c["val"]).items():
                 d["constructors"][kk] = d["constructors"].get(kk, 0) + n
             d["broken"] += bool(c.get("broken"))
+            todo = [c["val"]]
+            while todo:
+                x = todo.pop()
+                todo += tv.child_vals(x)
+                if x[0] == "func":
+                    d["func_roots"][x[1]] = d["func_roots"].get(x[1], 0) + 1
+                    d["funcs_declaring_reqs"] += bool(tv.func_reqs(x))
             d["not_built"] += not o["built"]
             if c["val"][0] == "int":
                 w = str(c["val"][2])
